@@ -186,8 +186,19 @@ def gen_case(seed, run, tier):
         spec = {"kind": "homog:1", "species": names, "eqs": [{"name": e, "reac": dict(rr), "prod": dict(pp), "K": 10 ** (lk + rw.uniform(-2, 2))}]}
         init = {n: _logu(rw, -6, -1) for n in names}
         ops = [o for o in ops if o["op"] != "roots" and o["op"] != "solve" and not o.get("x0")]
+    if single and rw.random() < 0.25:
+        # a composition written with whole numbers (python ints), moderate constant
+        for n in spec["species"]:
+            init[n] = rw.choice([0, 1, 1, 2, 3, 5]) if n != "H2O" else 55
+        if not any(init[n] for n in spec["eqs"][0]["reac"]) and not any(init[n] for n in spec["eqs"][0]["prod"]):
+            init[list(spec["eqs"][0]["reac"])[0]] = 2
+        spec["eqs"][0]["K"] = 10 ** rw.uniform(-2, 2)
+        ops = [o for o in ops if not o.get("x0") and o["op"] not in ("roots", "solve")]
+        int_init = True
+    else:
+        int_init = False
     if single:
-        ops.insert(0, {"op": "brentq"})
+        ops.insert(0, {"op": "brentq", "int_init": int_init})
         if rs.random() < 0.5:
             ops[0]["gamma"] = rs.choice([0.5, 0.8, 1.25, 2.0])
             if rf.random() < 0.6:
@@ -201,6 +212,11 @@ def gen_case(seed, run, tier):
                 if n != "H2O":
                     init[n] = _logu(rw, -4, -1)
             e0["K"] = min(e0["K"], 10 ** rw.uniform(-12, -8))
+    if rs.random() < 0.25 and len(ops) >= 2:
+        # the user re-orders the substances of the live system between two calculations
+        ops.insert(rs.randint(1, len(ops) - 1), {"op": "sort"})
+        for o in ops:
+            o["x0"] = None if "x0" in o else o.get("x0")
     if rs.random() < (0.5 if precip else 0.15) and not single:
         # the user changes an equilibrium constant on the live objects (e.g. another temperature) and solves again with
         # the solver object prepared earlier
@@ -353,7 +369,8 @@ def call_op(ctx, op, faults, reuse, eqsys=None):
                         return _g
 
                     akw["activity_product"] = activity_product
-                x = solve_equilibrium(list(ctx.init), stoich, e["K"], **akw)
+                c0arg = [int(v) for v in ctx.init] if op.get("int_init") and all(float(v).is_integer() for v in ctx.init) else list(ctx.init)
+                x = solve_equilibrium(c0arg, stoich, e["K"], **akw)
                 points.append((list(ctx.init), [float(v) for v in x], True, True))
             else:
                 raise core.HarnessError("unknown op %r" % op["op"])
@@ -569,6 +586,16 @@ def execute(case):
 
     for op in case["ops"]:
         faults0 = op.get("faults") or []
+        if op["op"] == "sort":
+            ctx.eqsys.sort_substances_inplace()
+            order = sorted(range(len(ctx.names)), key=lambda i: ctx.names[i])
+            ctx.names = [ctx.names[i] for i in order]
+            ctx.init = [ctx.init[i] for i in order]
+            ctx.spec["species"] = list(ctx.names)
+            ctx.neqsys_cache.clear()  # prepared solver objects belong to the old order
+            hist.append({"op": "sort", "outcome": "ok"})
+            bump("sort_between_solves")
+            continue
         if op.get("rekey"):
             one(op, [], True, "rekey0")
             f = float(op["rekey"])
